@@ -377,4 +377,409 @@ theorem Rel.matchFilter_exact {st : Store} {m : SubMap} (R : Rel st m) (o : Opts
     rw [matchesTopic_sys_plain hsys (whichOf_system hw).2] at hmt
     exact Bool.noConfusion hmt
 
+/-! ### MatchName -/
+
+/-- the name under which an entry is found by `Iterate{MatchName}`: its filter, or `$share/<group>/<filter>` -/
+def nameMatches (name : Str) (s : Sub) : Prop :=
+  if s.share ≠ [] then hasPrefix name sharePrefix = true ∧ cut '/' (name.drop 7) = (s.share, some s.filter)
+  else s.filter = name
+
+/-- for well-formed share names this is `GetFullTopicName` -/
+theorem nameMatches_fullName (s : Sub) (hv : '/' ∉ s.share) : nameMatches (fullName s.share s.filter) s := by
+  unfold nameMatches fullName
+  by_cases h : s.share = []
+  · simp [h]
+  · simp only [h, ne_eq, not_false_eq_true, ite_true]
+    refine ⟨by rw [List.append_assoc]; exact hasPrefix_append _ _, ?_⟩
+    have : List.drop 7 (sharePrefix ++ s.share ++ '/' :: s.filter) = s.share ++ '/' :: s.filter := by simp [sharePrefix]
+    rw [this, cut_append hv]
+
+theorem find_none_empty {w : Which} {t : TTrie} (h : TrieOK w t) {f : Str} (hf : find t f = none) (c : Str) (s : Sub) :
+    (c, s) ∉ setRs (nodeAt t (splitLevels f)) := by
+  intro hm
+  unfold find at hf
+  have hp := setRs_path (h _) hm
+  cases hat : Trie.at? (splitLevels f) t with
+  | none =>
+    have : nodeAt t (splitLevels f) = {} := by simp [nodeAt, Trie.viewAt, hat]
+    rw [this] at hm; simp [setRs_empty] at hm
+  | some nd =>
+    have hn : nodeAt t (splitLevels f) = nd.payload := by simp [nodeAt, Trie.viewAt, hat]
+    rw [hat] at hf
+    simp only at hf
+    have hname : nd.payload.name = f := by
+      rw [← hn, ← hp.2]; exact splitLevels_inj hp.1
+    simp [hname] at hf
+
+theorem find_some_eq {t : TTrie} {f : Str} {n : Node} (hf : find t f = some n) : n = nodeAt t (splitLevels f) := by
+  unfold find at hf
+  cases hat : Trie.at? (splitLevels f) t with
+  | none => simp [hat] at hf
+  | some nd =>
+    rw [hat] at hf
+    simp only at hf
+    split at hf
+    · injection hf with hf; rw [← hf]; simp [nodeAt, Trie.viewAt, hat]
+    · simp at hf
+
+theorem Rel.matchName_nonShared {st : Store} {m : SubMap} (R : Rel st m) (w : Which) (hw : w ≠ .shared) (o : Opts)
+    (ht : o.topic ≠ []) (hm : o.matchType = 1) :
+    (iterateNonShared o (st.index w) (st.trie w)).Nodup ∧
+    ∀ c s, (c, s) ∈ iterateNonShared o (st.index w) (st.trie w) ↔
+      (stored m c s ∧ nameMatches o.topic s ∧ (o.client = [] ∨ c = o.client)) ∧ whichOf s.share s.filter = w := by
+  have hT := R.trieOK w
+  have hnode := hT (splitLevels o.topic)
+  have hsh := hnode.kindN hw
+  -- the branch taken
+  have hbranch : iterateNonShared o (st.index w) (st.trie w) = nameNonShared o (st.trie w) := by
+    unfold iterateNonShared; simp [ht, hm]
+  rw [hbranch]
+  unfold nameNonShared
+  -- membership in the node, in abstract terms
+  have hmem : ∀ c s, (c, s) ∈ setRs (nodeAt (st.trie w) (splitLevels o.topic)) ↔
+      (stored m c s ∧ nameMatches o.topic s) ∧ whichOf s.share s.filter = w := by
+    intro c s
+    rw [mem_setRs_nodeAt hT, R.trieLookup_iff]
+    constructor
+    · rintro ⟨hq, hs, hw'⟩
+      refine ⟨⟨hs, ?_⟩, hw'⟩
+      have hg : s.share = [] := by
+        by_cases hg : s.share = []
+        · exact hg
+        · exact absurd (hw' ▸ (whichOf_shared_iff _ _).mpr hg) hw
+      unfold nameMatches; simp only [hg, ne_eq, not_true_eq_false, ite_false]
+      exact (splitLevels_inj hq).symm
+    · rintro ⟨⟨hs, hn⟩, hw'⟩
+      have hg : s.share = [] := by
+        by_cases hg : s.share = []
+        · exact hg
+        · exact absurd (hw' ▸ (whichOf_shared_iff _ _).mpr hg) hw
+      unfold nameMatches at hn; simp only [hg, ne_eq, not_true_eq_false, ite_false] at hn
+      exact ⟨by rw [hn], hs, hw'⟩
+  cases hf : find (st.trie w) o.topic with
+  | none =>
+    refine ⟨List.nodup_nil, fun c s => ?_⟩
+    simp only [List.not_mem_nil, false_iff]
+    rintro ⟨⟨hs, hn, _⟩, hw'⟩
+    exact find_none_empty hT hf c s ((hmem c s).mpr ⟨⟨hs, hn⟩, hw'⟩)
+  | some n =>
+    have hn := find_some_eq hf
+    subst hn
+    simp only
+    by_cases hc : o.client = []
+    · simp only [hc, ne_eq, not_true_eq_false, ite_false]
+      refine ⟨nodup_setRs hnode, fun c s => ?_⟩
+      rw [hmem]; simp
+    · simp only [hc, ne_eq, not_false_eq_true, ite_true]
+      have hnc : nodeOfClient o.client (nodeAt (st.trie w) (splitLevels o.topic)) =
+          (AL.get o.client (nodeAt (st.trie w) (splitLevels o.topic)).clients).toList.map (fun s => (o.client, s)) := by
+        unfold nodeOfClient; rw [hsh]; simp
+      rw [hnc]
+      constructor
+      · cases AL.get o.client (nodeAt (st.trie w) (splitLevels o.topic)).clients <;> simp
+      · intro c s
+        have hm2 := hmem c s
+        rw [mem_setRs, hsh] at hm2
+        simp only [List.not_mem_nil, false_and, exists_false, or_false] at hm2
+        simp only [List.mem_map, Option.mem_toList, Option.mem_def]
+        constructor
+        · rintro ⟨s', hs', he⟩
+          injection he with h1 h2; subst h1; subst h2
+          obtain ⟨⟨h1, h2⟩, h3⟩ := hm2.mp (AL.mem_of_get hs')
+          exact ⟨⟨h1, h2, Or.inr rfl⟩, h3⟩
+        · rintro ⟨⟨h1, h2, h3⟩, h4⟩
+          have hcc : c = o.client := by simpa [hc] using h3
+          subst hcc
+          exact ⟨s, AL.get_of_mem hnode.cnodup (hm2.mpr ⟨⟨h1, h2⟩, h4⟩), rfl⟩
+
+theorem Rel.matchName_shared {st : Store} {m : SubMap} (R : Rel st m) (o : Opts)
+    (ht : o.topic ≠ []) (hm : o.matchType = 1) :
+    (iterateShared o (st.index .shared) (st.trie .shared)).Nodup ∧
+    ∀ c s, (c, s) ∈ iterateShared o (st.index .shared) (st.trie .shared) ↔
+      (stored m c s ∧ nameMatches o.topic s ∧ (o.client = [] ∨ c = o.client)) ∧ whichOf s.share s.filter = .shared := by
+  have hT := R.trieOK .shared
+  have hbranch : iterateShared o (st.index .shared) (st.trie .shared) = nameShared o (st.trie .shared) := by
+    unfold iterateShared; simp [ht, hm]
+  rw [hbranch]
+  unfold nameShared
+  -- a shared entry whose name matches: decode the name
+  have hname : ∀ s : Sub, whichOf s.share s.filter = .shared →
+      (nameMatches o.topic s ↔ hasPrefix o.topic sharePrefix = true ∧ cut '/' (o.topic.drop 7) = (s.share, some s.filter)) := by
+    intro s hw
+    have := (whichOf_shared_iff _ _).mp hw
+    unfold nameMatches; simp [this]
+  by_cases hp : hasPrefix o.topic sharePrefix = true
+  · simp only [hp, ite_true]
+    cases hcut : cut '/' (o.topic.drop 7) with
+    | mk g of =>
+      cases of with
+      | none =>
+        refine ⟨List.nodup_nil, fun c s => ?_⟩
+        simp only [List.not_mem_nil, false_iff]
+        rintro ⟨⟨_, hn, _⟩, hw⟩
+        rw [hname s hw, hcut] at hn
+        simp at hn
+      | some f =>
+        simp only
+        have hnode := hT (splitLevels f)
+        -- entries of group g at the node of f, abstractly
+        have hmem : ∀ c s, (c, s) ∈ (AL.get g (nodeAt (st.trie .shared) (splitLevels f)).shared).getD [] ↔
+            (stored m c s ∧ nameMatches o.topic s) ∧ whichOf s.share s.filter = .shared := by
+          intro c s
+          constructor
+          · intro hin
+            cases hg : AL.get g (nodeAt (st.trie .shared) (splitLevels f)).shared with
+            | none => simp [hg] at hin
+            | some cl =>
+              simp only [hg, Option.getD_some] at hin
+              have hgm := AL.mem_of_get hg
+              have hin' : (c, s) ∈ setRs (nodeAt (st.trie .shared) (splitLevels f)) :=
+                mem_setRs.mpr (Or.inr ⟨g, cl, hgm, hin⟩)
+              obtain ⟨hq, hl⟩ := (mem_setRs_nodeAt hT _ c s).mp hin'
+              obtain ⟨hs, hw⟩ := (R.trieLookup_iff .shared c s).mp hl
+              have hsg := (hnode.sok g cl hgm c s hin).1
+              refine ⟨⟨hs, ?_⟩, hw⟩
+              rw [hname s hw, hcut, hsg, splitLevels_inj hq]
+              exact ⟨hp, rfl⟩
+          · rintro ⟨⟨hs, hn⟩, hw⟩
+            rw [hname s hw, hcut] at hn
+            obtain ⟨_, hn⟩ := hn
+            injection hn with h1 h2
+            injection h2 with h2
+            subst h1; subst h2
+            have hl := (R.trieLookup_iff .shared c s).mpr ⟨hs, hw⟩
+            have hin := (mem_setRs_iff (hT _) c s).mpr hl
+            rcases mem_setRs.mp hin with hc | ⟨g', cl, hgm, hcl⟩
+            · rw [hnode.kindS rfl] at hc; simp at hc
+            · have hsg := (hnode.sok g' cl hgm c s hcl).1
+              subst hsg
+              rw [AL.get_of_mem hnode.snodup hgm]
+              exact hcl
+        have hnd : ((AL.get g (nodeAt (st.trie .shared) (splitLevels f)).shared).getD []).Nodup := by
+          cases hg : AL.get g (nodeAt (st.trie .shared) (splitLevels f)).shared with
+          | none => simp
+          | some cl => exact AL.nodup_of_nodupKeys (hnode.gnodup g cl (AL.mem_of_get hg))
+        have hndk : AL.NodupKeys ((AL.get g (nodeAt (st.trie .shared) (splitLevels f)).shared).getD []) := by
+          cases hg : AL.get g (nodeAt (st.trie .shared) (splitLevels f)).shared with
+          | none => simp [AL.nodupKeys_nil]
+          | some cl => exact hnode.gnodup g cl (AL.mem_of_get hg)
+        cases hf : find (st.trie .shared) f with
+        | none =>
+          refine ⟨List.nodup_nil, fun c s => ?_⟩
+          simp only [List.not_mem_nil, false_iff]
+          rintro ⟨⟨hs, hn, _⟩, hw⟩
+          have hin := (hmem c s).mpr ⟨⟨hs, hn⟩, hw⟩
+          cases hg : AL.get g (nodeAt (st.trie .shared) (splitLevels f)).shared with
+          | none => simp [hg] at hin
+          | some cl =>
+            simp only [hg, Option.getD_some] at hin
+            exact find_none_empty hT hf c s (mem_setRs.mpr (Or.inr ⟨g, cl, AL.mem_of_get hg, hin⟩))
+        | some n =>
+          have hn := find_some_eq hf
+          subst hn
+          simp only
+          by_cases hc : o.client = []
+          · simp only [hc, ne_eq, not_true_eq_false, ite_false]
+            refine ⟨hnd, fun c s => ?_⟩
+            rw [hmem]; simp
+          · simp only [hc, ne_eq, not_false_eq_true, ite_true]
+            constructor
+            · cases AL.get o.client ((AL.get g (nodeAt (st.trie .shared) (splitLevels f)).shared).getD []) <;> simp
+            · intro c s
+              simp only [List.mem_map, Option.mem_toList, Option.mem_def]
+              constructor
+              · rintro ⟨s', hs', he⟩
+                injection he with h1 h2; subst h1; subst h2
+                obtain ⟨⟨h1, h2⟩, h3⟩ := (hmem _ _).mp (AL.mem_of_get hs')
+                exact ⟨⟨h1, h2, Or.inr rfl⟩, h3⟩
+              · rintro ⟨⟨h1, h2, h3⟩, h4⟩
+                have hcc : c = o.client := by simpa [hc] using h3
+                subst hcc
+                exact ⟨s, AL.get_of_mem hndk ((hmem _ _).mpr ⟨⟨h1, h2⟩, h4⟩), rfl⟩
+  · simp only [hp, Bool.false_eq_true, ite_false]
+    refine ⟨List.nodup_nil, fun c s => ?_⟩
+    simp only [List.not_mem_nil, false_iff]
+    rintro ⟨⟨_, hn, _⟩, hw⟩
+    rw [hname s hw] at hn
+    exact hp hn.1
+
+/-- `Iterate{MatchName, TopicName[, ClientID]}`: exactly the stored entries of the selected types whose name
+    (filter, or `$share/<group>/<filter>`) equals `TopicName`, each once, with the latest options -/
+theorem Rel.matchName_exact {st : Store} {m : SubMap} (R : Rel st m) (o : Opts) (ht : o.topic ≠ []) (hm : o.matchType = 1) :
+    (st.iterate o).Nodup ∧ ∀ c s, (c, s) ∈ st.iterate o ↔
+      (stored m c s ∧ nameMatches o.topic s ∧ (o.client = [] ∨ c = o.client)) ∧
+        o.sel (whichOf s.share s.filter) = true := by
+  apply iterate_combine st o
+  · intro _; exact R.matchName_shared o ht hm
+  · exact R.matchName_nonShared .user (by decide) o ht hm
+  · rintro ⟨_, hsys⟩ c s ⟨⟨_, hn, _⟩, hw⟩
+    obtain ⟨h1, h2⟩ := whichOf_user hw
+    unfold nameMatches at hn; simp only [h1, ne_eq, not_true_eq_false, ite_false] at hn
+    rw [hn, hsys] at h2; exact Bool.noConfusion h2
+  · exact R.matchName_nonShared .system (by decide) o ht hm
+  · rintro ⟨_, hsys⟩ c s ⟨⟨_, hn, _⟩, hw⟩
+    obtain ⟨h1, h2⟩ := whichOf_system hw
+    unfold nameMatches at hn; simp only [h1, ne_eq, not_true_eq_false, ite_false] at hn
+    rw [hn, hsys] at h2; exact Bool.noConfusion h2
+
+/-! ### per-client listing -/
+
+theorem nodup_filterMap {α β : Type} (f : α → Option β) : ∀ (l : List α), l.Nodup →
+    (∀ a ∈ l, ∀ b ∈ l, ∀ x, f a = some x → f b = some x → a = b) → (l.filterMap f).Nodup
+  | [], _, _ => by simp
+  | a :: r, hn, hinj => by
+    have hn' := List.nodup_cons.mp hn
+    have ih := nodup_filterMap f r hn'.2 (fun x hx y hy => hinj x (List.mem_cons_of_mem _ hx) y (List.mem_cons_of_mem _ hy))
+    cases hfa : f a with
+    | none => simpa [List.filterMap_cons, hfa] using ih
+    | some x =>
+      simp only [List.filterMap_cons, hfa, List.nodup_cons]
+      refine ⟨?_, ih⟩
+      intro hm
+      obtain ⟨b, hb, hfb⟩ := List.mem_filterMap.mp hm
+      have := hinj a List.mem_cons_self b (List.mem_cons_of_mem _ hb) x hfa hfb
+      exact hn'.1 (this ▸ hb)
+
+/-- the value the listing computes for one index key, through `nodeAt` -/
+theorem listNonShared_eq (c : Str) (index : Index) (t : TTrie) :
+    listNonShared c index t =
+      ((AL.get c index).getD []).filterMap (fun key =>
+        (AL.get c (nodeAt t (splitLevels key)).clients).map (fun s => (c, s))) := by
+  unfold listNonShared nodeAt Trie.viewAt
+  congr 1
+  funext key
+  cases Trie.at? (splitLevels key) t <;> simp
+
+theorem listShared_eq (c : Str) (index : Index) (t : TTrie) :
+    listShared c index t =
+      ((AL.get c index).getD []).filterMap (fun key =>
+        (AL.get c ((AL.get (keyParts .shared key).1 (nodeAt t (splitLevels (keyParts .shared key).2)).shared).getD [])).map
+          (fun s => (c, s))) := by
+  unfold listShared nodeAt Trie.viewAt
+  congr 1
+  funext key
+  cases Trie.at? (splitLevels (keyParts Which.shared key).2) t <;> simp
+
+theorem Rel.list_nonShared {st : Store} {m : SubMap} (R : Rel st m) (w : Which) (hw : w ≠ .shared) (cl : Str) :
+    (listNonShared cl (st.index w) (st.trie w)).Nodup ∧
+    ∀ c s, (c, s) ∈ listNonShared cl (st.index w) (st.trie w) ↔ (stored m c s ∧ c = cl) ∧ whichOf s.share s.filter = w := by
+  have hT := R.trieOK w
+  rw [listNonShared_eq]
+  -- value at a key
+  have hval : ∀ key s, AL.get cl (nodeAt (st.trie w) (splitLevels key)).clients = some s →
+      s.share = [] ∧ s.filter = key ∧ stored m cl s ∧ whichOf s.share s.filter = w := by
+    intro key s hg
+    have hm := AL.mem_of_get hg
+    obtain ⟨h1, _, h3⟩ := (hT _).cok cl s hm
+    have hf : s.filter = key := splitLevels_inj h3
+    have hl : trieLookup (st.trie w) cl s.share s.filter = some s := by
+      unfold trieLookup nodeLookup; rw [h1, hf]; simpa using hg
+    exact ⟨h1, hf, (R.trieLookup_iff w cl s).mp hl⟩
+  constructor
+  · apply nodup_filterMap _ _ (R.idxNodup w cl)
+    intro a _ b _ x ha hb
+    obtain ⟨sa, hsa, rfl⟩ := Option.map_eq_some_iff.mp ha
+    obtain ⟨sb, hsb, he⟩ := Option.map_eq_some_iff.mp hb
+    injection he with _ he; subst he
+    exact (hval a sb hsa).2.1.symm.trans (hval b sb hsb).2.1
+  · intro c s
+    rw [List.mem_filterMap]
+    constructor
+    · rintro ⟨key, _, hk⟩
+      obtain ⟨s', hs', he⟩ := Option.map_eq_some_iff.mp hk
+      injection he with h1 h2; subst h1; subst h2
+      obtain ⟨_, _, h3, h4⟩ := hval key s' hs'
+      exact ⟨⟨h3, rfl⟩, h4⟩
+    · rintro ⟨⟨hs, rfl⟩, hw'⟩
+      have hg : s.share = [] := by
+        by_cases hg : s.share = []
+        · exact hg
+        · exact absurd (hw' ▸ (whichOf_shared_iff _ _).mpr hg) hw
+      refine ⟨s.filter, ?_, ?_⟩
+      · have := (R.key_mem_iff c s.share s.filter (R.validM _ _ hs).1).mpr (by unfold stored at hs; simp [hs])
+        rw [hw'] at this
+        simpa [indexKey, hg, Store.keysOf] using this
+      · have hl := (R.trieLookup_iff w c s).mpr ⟨hs, hw'⟩
+        unfold trieLookup nodeLookup at hl
+        rw [hg] at hl
+        simp only [ne_eq, not_true_eq_false, ite_false] at hl
+        simp [hl]
+
+theorem Rel.list_shared {st : Store} {m : SubMap} (R : Rel st m) (cl : Str) :
+    (listShared cl (st.index .shared) (st.trie .shared)).Nodup ∧
+    ∀ c s, (c, s) ∈ listShared cl (st.index .shared) (st.trie .shared) ↔
+      (stored m c s ∧ c = cl) ∧ whichOf s.share s.filter = .shared := by
+  have hT := R.trieOK .shared
+  rw [listShared_eq]
+  have hval : ∀ key, key ∈ st.keysOf .shared cl → ∀ s,
+      AL.get cl ((AL.get (keyParts .shared key).1 (nodeAt (st.trie .shared) (splitLevels (keyParts .shared key).2)).shared).getD [])
+        = some s →
+      key = indexKey s.share s.filter ∧ stored m cl s ∧ whichOf s.share s.filter = .shared := by
+    intro key hkey s hg
+    obtain ⟨g, f, hs, hw, hik⟩ := (R.idx .shared cl key).mp hkey
+    obtain ⟨s0, hs0⟩ := Option.isSome_iff_exists.mp hs
+    have hv := (R.validM _ _ hs0).1
+    have hkp : keyParts .shared key = (g, f) := by rw [← hik, ← hw]; exact keyParts_indexKey hv
+    rw [hkp] at hg
+    simp only at hg
+    cases hgg : AL.get g (nodeAt (st.trie .shared) (splitLevels f)).shared with
+    | none => simp [hgg] at hg
+    | some cl' =>
+      simp only [hgg, Option.getD_some] at hg
+      have hgm := AL.mem_of_get hgg
+      have hcm := AL.mem_of_get hg
+      obtain ⟨h1, _, _, h4⟩ := (hT _).sok g cl' hgm cl s hcm
+      have hf : s.filter = f := splitLevels_inj h4
+      have hin : (cl, s) ∈ setRs (nodeAt (st.trie .shared) (splitLevels f)) := mem_setRs.mpr (Or.inr ⟨g, cl', hgm, hcm⟩)
+      have hl := ((mem_setRs_nodeAt hT _ cl s).mp hin).2
+      refine ⟨?_, (R.trieLookup_iff .shared cl s).mp hl⟩
+      rw [h1, hf]; exact hik.symm
+  constructor
+  · apply nodup_filterMap _ _ (R.idxNodup .shared cl)
+    intro a ha b hb x hxa hxb
+    obtain ⟨sa, hsa, rfl⟩ := Option.map_eq_some_iff.mp hxa
+    obtain ⟨sb, hsb, he⟩ := Option.map_eq_some_iff.mp hxb
+    injection he with _ he; subst he
+    exact (hval a ha sb hsa).1.trans (hval b hb sb hsb).1.symm
+  · intro c s
+    rw [List.mem_filterMap]
+    constructor
+    · rintro ⟨key, hkey, hk⟩
+      obtain ⟨s', hs', he⟩ := Option.map_eq_some_iff.mp hk
+      injection he with h1 h2; subst h1; subst h2
+      obtain ⟨_, h3, h4⟩ := hval key hkey s' hs'
+      exact ⟨⟨h3, rfl⟩, h4⟩
+    · rintro ⟨⟨hs, rfl⟩, hw'⟩
+      have hv := (R.validM _ _ hs).1
+      have hkey : indexKey s.share s.filter ∈ st.keysOf .shared c := by
+        have := (R.key_mem_iff c s.share s.filter hv).mpr (by unfold stored at hs; simp [hs])
+        rwa [hw'] at this
+      refine ⟨indexKey s.share s.filter, hkey, ?_⟩
+      have hkp : keyParts .shared (indexKey s.share s.filter) = (s.share, s.filter) := by
+        rw [← hw']; exact keyParts_indexKey hv
+      rw [hkp]
+      simp only
+      have hl := (R.trieLookup_iff .shared c s).mpr ⟨hs, hw'⟩
+      unfold trieLookup nodeLookup at hl
+      have hg := (whichOf_shared_iff _ _).mp hw'
+      simp only [hg, ne_eq, not_false_eq_true, ite_true] at hl
+      cases hgg : AL.get s.share (nodeAt (st.trie .shared) (splitLevels s.filter)).shared with
+      | none => simp [hgg] at hl
+      | some cl' => simp only [hgg, Option.bind_some] at hl; simp [hl]
+
+/-- `Iterate{ClientID}` (no topic): exactly the client's stored entries of the selected types, each once, latest options -/
+theorem Rel.clientListing_exact {st : Store} {m : SubMap} (R : Rel st m) (o : Opts) (ht : o.topic = []) (hc : o.client ≠ []) :
+    (st.iterate o).Nodup ∧ ∀ c s, (c, s) ∈ st.iterate o ↔
+      (stored m c s ∧ c = o.client) ∧ o.sel (whichOf s.share s.filter) = true := by
+  have hS : iterateShared o (st.index .shared) (st.trie .shared) = listShared o.client (st.index .shared) (st.trie .shared) := by
+    unfold iterateShared; simp [ht, hc]
+  have hN : ∀ w, iterateNonShared o (st.index w) (st.trie w) = listNonShared o.client (st.index w) (st.trie w) := by
+    intro w; unfold iterateNonShared; simp [ht, hc]
+  apply iterate_combine st o
+  · intro _; rw [hS]; exact R.list_shared o.client
+  · rw [hN]; exact R.list_nonShared .user (by decide) o.client
+  · rintro ⟨h, _⟩; exact absurd ht h
+  · rw [hN]; exact R.list_nonShared .system (by decide) o.client
+  · rintro ⟨h, _⟩; exact absurd ht h
+
 end GmqttVerif.SubStore
